@@ -254,15 +254,20 @@ class Scheduler(object):
                 self.arm()
                 self.sems[target].release()
 
-    def run(self, body, wall_timeout=120):
-        """body(tid) runs the operations of thread tid."""
+    def run(self, body, wall_timeout=120, team=None):
+        """body(tid) runs the operations of thread tid.  team: optional
+        Team of persistent threads (creating threads is expensive in this
+        sandbox when done thousands of times)."""
 
-        threads = [threading.Thread(target=self.thread_main,
-                                    args=(tid, body), daemon=True)
-                   for tid in range(self.n)]
+        if team is not None:
+            team.start(self, body)
+        else:
+            threads = [threading.Thread(target=self.thread_main,
+                                        args=(tid, body), daemon=True)
+                       for tid in range(self.n)]
 
-        for thread in threads:
-            thread.start()
+            for thread in threads:
+                thread.start()
 
         first = self.first_thread()
         self.current = first
@@ -274,10 +279,59 @@ class Scheduler(object):
                                '(current={}, done={})'.format(
                                    wall_timeout, self.current, self.done))
 
-        for thread in threads:
-            thread.join(wall_timeout)
+        if team is not None:
+            team.wait(wall_timeout)
+        else:
+            for thread in threads:
+                thread.join(wall_timeout)
 
         if self.errors:
             raise HarnessError('; '.join(self.errors))
 
         return self.recorded
+
+
+class Team(object):
+    """n persistent caller threads that serve one Scheduler.run() after the
+    other."""
+
+    def __init__(self, n):
+        self.n = n
+        self.jobs = [None] * n
+        self.go = [threading.Semaphore(0) for _ in range(n)]
+        self.idle = [threading.Semaphore(0) for _ in range(n)]
+        self.threads = [threading.Thread(target=self.loop, args=(tid,),
+                                         daemon=True) for tid in range(n)]
+
+        for thread in self.threads:
+            thread.start()
+
+    def loop(self, tid):
+        while True:
+            self.go[tid].acquire()
+            job = self.jobs[tid]
+
+            if job is None:
+                return
+
+            scheduler, body = job
+
+            try:
+                scheduler.thread_main(tid, body)
+            finally:
+                self.idle[tid].release()
+
+    def start(self, scheduler, body):
+        for tid in range(self.n):
+            self.jobs[tid] = (scheduler, body)
+            self.go[tid].release()
+
+    def wait(self, wall_timeout):
+        for tid in range(self.n):
+            if not self.idle[tid].acquire(timeout=wall_timeout):
+                raise HarnessError('team thread {} did not finish'.format(tid))
+
+    def close(self):
+        for tid in range(self.n):
+            self.jobs[tid] = None
+            self.go[tid].release()
